@@ -157,6 +157,8 @@ class Exec(CMixin, ExprMixin, StmtMixin, CallMixin):
             detail = '+%d' % rel
         name = '%s::%s@%s' % (self.fname, kind, detail)
         g = z3.BoolVal(False) if goal is False else zbool(goal)
+        if goal is False:
+            self.last_false = '%s (%s, line %s)' % (name, note, line)
         hyps = list(st.pc) + list(self.guards)
         if emit and self.mode == 'vc':
             c = self.frames[0].contract
